@@ -56,7 +56,7 @@ impl Scenario for MemSim {
         }
     }
     fn rule(&self) -> &'static str {
-        "seeded histories of provision/new_pdu/new_frag/take_frag/save_frag on the real SimpleGseMemory in lock-step with a bag+slots reference model (1..4 slots, aliasing and non-aliasing ids, buffer sizes below/at/above the configured size); non-trivial = the history contains a take or new_frag on an occupied or aliased slot; distinct = distinct program hashes; op-sequence prefixes of length <= 5 are counted in coverage_sets.prefix5"
+        "seeded histories of provision/new_pdu/new_frag/take_frag/save_frag on the real SimpleGseMemory in lock-step with a bag+slots reference model (1..4 slots, aliasing and non-aliasing ids, buffer sizes below/at/above the configured size); non-trivial = the history contains a take or new_frag on an occupied or aliased slot; distinct = distinct program hashes; op-sequence prefixes of length <= 5 are counted in coverage_sets.prefix5; the first 8 x 12^d runs (d = 4 quick, 5 thorough) enumerate every sequence of d operations over a 12-letter alphabet for 1..4 slots from an empty and from an exactly full free list (counter enumerated_op_sequences)"
     }
     fn components_real(&self) -> &'static [&'static str] {
         &["SimpleGseMemory::{new,provision_storage,new_pdu,new_frag,take_frag,save_frag}"]
@@ -65,7 +65,43 @@ impl Scenario for MemSim {
         &["caller issuing memory operations", "reference model RefMem"]
     }
 
-    fn generate(&self, _target: &str, _idx: u64, rng: &mut Rng, _tier: Tier) -> Program {
+    fn generate(&self, _target: &str, idx: u64, rng: &mut Rng, tier: Tier) -> Program {
+        // bounded-exhaustive part: every sequence of `depth` operations over a 12-letter alphabet (provision at and
+        // below the size, new_pdu, new_frag / take_frag on an id, its neighbour and an id aliasing it, save of the
+        // two oldest held contexts, drop) for 1..4 slots, starting from an empty or an exactly full free list
+        let depth: u32 = if tier == Tier::Quick { 4 } else { 5 };
+        let per = 12u64.pow(depth);
+        if idx < per * 8 {
+            let cfgi = idx / per;
+            let mut code = idx % per;
+            let slots = 1 + (cfgi % 4) as usize;
+            let full = cfgi / 4 == 1;
+            let maxpdu = 4usize;
+            // ids chosen so that the aliasing one wraps around the 8-bit id space
+            let a = (256 - slots) as u8;
+            let ids = [a, a.wrapping_add(1), a.wrapping_add(slots as u8)];
+            let mut ops = vec![];
+            if full {
+                for _ in 0..slots + 2 {
+                    ops.push(Op::new("prov").u("size", maxpdu as u64));
+                }
+            }
+            for _ in 0..depth {
+                let l = code % 12;
+                code /= 12;
+                ops.push(match l {
+                    0 => Op::new("prov").u("size", maxpdu as u64),
+                    1 => Op::new("prov").u("size", maxpdu as u64 - 1),
+                    2 => Op::new("newpdu"),
+                    3 | 4 | 5 => Op::new("newfrag").u("fid", ids[(l - 3) as usize] as u64),
+                    6 | 7 | 8 => Op::new("take").u("fid", ids[(l - 6) as usize] as u64),
+                    9 => Op::new("save").u("ix", 0),
+                    10 => Op::new("save").u("ix", 1),
+                    _ => Op::new("drop").u("ix", 0),
+                });
+            }
+            return Program { scenario: "memsim", cfg: Op::new("cfg").u("slots", slots as u64).u("maxpdu", maxpdu as u64).u("enum", 1), ops };
+        }
         let slots = rng.usize_in(1, 4);
         let maxpdu = *rng.pick(&[2usize, 4, 16]);
         let n = if rng.chance(1, 10) { rng.usize_in(30, 80) } else { rng.usize_in(3, 25) };
@@ -107,6 +143,9 @@ impl Scenario for MemSim {
         let mut log = H64::new();
         let mut interesting = false;
         let mut prefix = H64::new();
+        if p.cfg.get_u("enum") == 1 {
+            st.inc("enumerated_op_sequences");
+        }
         macro_rules! bad {
             ($clause:expr, $site:expr, $detail:expr) => {{
                 st.log = log.0;
@@ -267,9 +306,13 @@ impl Scenario for MemSim {
                             }
                             held.push((c, b, s.tag));
                         }
-                        Err(_) => {
+                        Err(e) => {
                             if stored_same {
                                 bad!("C17.take_frag_fails_on_stored_id", "stored", format!("take_frag({}) failed although a context is saved under that id", fid));
+                            }
+                            // the statement names the error of a miss
+                            if !matches!(e, DecapMemoryError::UndefinedId) {
+                                bad!("C17.take_frag_miss_reports_another_error", if table[sl].is_some() { "aliasing" } else { "empty" }, format!("take_frag({}) on an id nothing is saved under reported {:?} instead of an undefined id", fid, std::mem::discriminant(&e)));
                             }
                             // memory must be unchanged: verified by the continued lock-step comparison and the final drain
                         }
@@ -329,7 +372,7 @@ impl Scenario for MemSim {
                 }
             } else {
                 // nothing may be retrievable from an empty slot under any id mapping to it
-                for k in 0..(256 / slots).min(8) {
+                for k in 0..(256 + slots - 1 - sl) / slots {
                     let id = (sl + k * slots) as u8;
                     if let Ok(Ok(_)) = guarded(|| mem.take_frag(id)) {
                         st.log = log.0;
